@@ -56,6 +56,19 @@ BYSTANDER_SCRIPT = (b"\x7e\xa0\x0c\x01\x02\x01\x10\x27\xa0", b"\x02\x7d", b"\x5e
 _runs = 0
 
 
+def _with_empty_calls(chunks, k: int):
+    """Every fifth execution some calls carry no octets at all (a read that timed out): read(b'') is a call like any other."""
+    if k % 5 != 2:
+        return chunks
+    out = []
+    for i, ch in enumerate(chunks):
+        if (i + k) % 7 == 0:
+            out.append(b"")
+            containers.used["calls_with_an_empty_chunk"] = containers.used.get("calls_with_an_empty_chunk", 0) + 1
+        out.append(ch)
+    return out
+
+
 def run(cfg, chunks, ctx=None, reader=None, states: set | None = None):
     """Feed all chunks; returns (list of observed frames, exception or None)."""
     global _runs
@@ -68,6 +81,7 @@ def run(cfg, chunks, ctx=None, reader=None, states: set | None = None):
     kept = []
     err = None
     usable = containers.probe("hdlc", lambda: new_reader((False, False)), b"\x7e" + bytes.fromhex("a00c0102011027a00201e7de") + b"\x7e")
+    chunks = _with_empty_calls(chunks, _runs)
     for ch in chunks:
         clock.tick()
         if bystander is not None:
